@@ -280,6 +280,15 @@ func c11scripted(w *world, k int) {
 		}
 	}
 	del(b)
+	// D (other association): its UPLINK FAR carries an outer header creation naming the same gNB (N9 style): it takes no
+	// reference on the peer, and its leaving must not touch the peer A forwards through
+	{
+		pdrs, fars, qers := mk(4, true)
+		fars[0] = sysh.FarIE{ID: 1, Act: 2, Fwd: &sysh.FwdIE{Dst: u8p(1), Ohc: u32p2(90001, gnb)}}
+		w.nextCP++
+		d, _ := w.est(1, w.nodes[1], w.nextCP, pdrs, fars, qers, "c11-uplink-far-names-gnb")
+		del(d)
+	}
 	// C shares peer and filter with A; they leave in either order; a deletion is repeated
 	cs := est(1, 3, false)
 	if k%2 == 0 {
